@@ -66,5 +66,6 @@ def generate(rng, tier):
 
 LEVEL_TEXT = ('Kernel-checked theorems for every libm: activations never change the angle; ReLU passes the magnitude bit-exactly iff cosF t >_F 0 and otherwise returns +0; propagation and refraction keep the magnitude bit-exactly, dispersion has magnitude exactly 1; '
               'a negative charge turns the inverse-power field by exactly two blades with the remainder untouched; OTF adds exactly one blade; magnification scales intensity by fl(1/fl(m m)). '
-              'Snell, 1/r^n and 1/r scaling, sigmoid/tanh bounds and quadrilateral-area invariance / shoelace equality are decided against mpmath (S3, partial).')
+              'C19_tanh_bound: under the range hypothesis |tanhF| <= 1 the tanh activation never exceeds the input magnitude in absolute value. '
+              'Snell, 1/r^n and 1/r scaling, sigmoid bound and quadrilateral-area invariance / shoelace equality are decided against mpmath (S3, partial).')
 LEVEL_NOTE = ('Partial. Trusted: Coq kernel + vm_compute; 4 standard-library axioms; hand-written model validated bit-for-bit each run with the recorded libm table; numeric laws rest on testing against mpmath.')
